@@ -1,4 +1,67 @@
-(* C01 — placeholder until the theorem set is assembled below *)
-From Coq Require Import List.
-Theorem C01_placeholder : True. Proof. exact I. Qed.
-Print Assumptions C01_placeholder.
+(* C01 — Formatting preserves the meaning of the document.
+   What a proof can carry (the parser is Marko, which is not modelled: that re-reading flowmark's
+   canonical spelling gives the same tree is decided by the differential part of the check):
+   wrapping keeps the words, the only change it makes is the line-start escape, the escaped form of
+   ANY word opens no block, so no wrapped line after the first begins a list, heading, quote, rule or
+   fence; code spans and fences are delimited adequately.  The full statement (also for the first
+   line of each wrap call) is refuted in Findings/C01_refuted.v (D-1c, D-44, D-47).
+   Property theorems only; each is closed by `exact` of a lemma proved elsewhere. *)
+From Coq Require Import List NArith ZArith Bool.
+Import ListNotations.
+From Base Require Import PyStr.
+From Model Require Import Wrap BlockStart Render.
+From Proofs Require Import PyStrFacts WrapProofs EscapeProofs RenderProofs.
+
+(* 1. Nothing is dropped, invented, merged or split by wrapping: the lines are the input words in
+   order; line 0 verbatim, the head of every later line passed through the escape, nothing else. *)
+Theorem C01_wrap_keeps_words : forall esc ws width c0 c1 md,
+  exists Lo, concat Lo = ws /\ Forall (fun l => l <> []) Lo /\
+             wrap_words esc ws width c0 c1 md = esc_lines esc md true Lo.
+Proof. exact wrap_lossless. Qed.
+Print Assumptions C01_wrap_keeps_words.
+
+(* 2. The escaped form of any word (without whitespace) is not a word that opens a block at the
+   start of a line (Model/BlockStart.v: list markers, ATX headings, quotes, fences, rules, setext
+   underlines). *)
+Theorem C01_escaped_word_opens_no_block : forall w,
+  nows w -> opens_block_word (escape_word w) = false.
+Proof. exact escape_word_never_opens. Qed.
+Print Assumptions C01_escaped_word_opens_no_block.
+
+(* 3. ... and a word that would open a block is always changed by the escape. *)
+Theorem C01_opener_is_escaped : forall w,
+  nows w -> opens_block_word w = true -> escape_word w <> w.
+Proof. exact opener_is_escaped. Qed.
+Print Assumptions C01_opener_is_escaped.
+
+(* 4. Hence a line break introduced by wrapping never makes a word start a list, heading, quote,
+   rule or fence: every line after the first begins with a word that opens no block, for every
+   word list, width and pair of start columns. *)
+Theorem C01_wrapped_lines_open_no_block : forall ws width c0 c1 i l,
+  Forall nows ws ->
+  nth_error (wrap_words escape_word ws width c0 c1 true) (S i) = Some l ->
+  exists h t, l = h :: t /\ opens_block_word h = false.
+Proof. exact wrapped_heads_safe. Qed.
+Print Assumptions C01_wrapped_lines_open_no_block.
+
+(* non-vacuity: a paragraph whose second word is a bullet marker, wrapped so that it heads a line *)
+Example C01_example :
+  wrap_words escape_word [[97; 97; 97]; [45]; [98]]%N 4 0 0 true = [[[97; 97; 97]]; [[92; 45]; [98]]]%N
+  /\ opens_block_word [45]%N = true /\ Forall nows [[97; 97; 97]; [45]; [98]]%N.
+Proof. split; [vm_compute; reflexivity|split; [vm_compute; reflexivity|repeat constructor]]. Qed.
+
+(* 5. A code span is written between delimiters one backtick longer than the longest backtick run
+   inside it, its content verbatim (one space of padding on both sides or none). *)
+Theorem C01_code_span_delimited : forall s,
+  exists pad, (pad = [] \/ pad = [sp]) /\
+    render_code_span s = repeat bq (S (longest_run bq s)) ++ pad ++ s ++ pad ++ repeat bq (S (longest_run bq s)).
+Proof. exact code_span_shape. Qed.
+Print Assumptions C01_code_span_delimited.
+
+(* 6. The fence of a code block is longer than any fence-like run that starts a content line. *)
+Theorem C01_fence_adequate : forall content fc flen line,
+  In line (split_on 10%N content) ->
+  (fence_run_at_line_start fc line < Nat.max flen (min_fence_length content fc))%nat /\
+  (flen <= Nat.max flen (min_fence_length content fc))%nat.
+Proof. exact fence_adequate. Qed.
+Print Assumptions C01_fence_adequate.
